@@ -39,7 +39,9 @@ def run(tier):
                      else "invoke %s n1" % s if r < 0.75 else "fnaddr %s n1" % s)
         lines += h
         expected += [None] * len(h)
-    drvs = vp.build_many([("sbx_vm", ["sbx_driver.cpp"], ["-DBK_VM"]), ("sig_driver", ["sig_driver.cpp"], [])])
+    drvs = vp.build_many([("sbx_vm", ["sbx_driver.cpp"], ["-DBK_VM"]), ("sig_driver", ["sig_driver.cpp"], []),
+                          ("sig_driver_lp16", ["sig_driver.cpp"], ["-DABI_LP16"]),
+                          ("sig_driver_lp64u", ["sig_driver.cpp"], ["-DABI_LP64U"])])
     events, tpath = sx.replay(drvs["sbx_vm"], wd, "vm", lines)
     for b in sx.validate(chk, "Trace_Sbx", tpath, events, lines, "lookup-vm"):
         chk.violation("[lookup, vm backend] event %d outside the C11 Contract: %s" % (b["index"], b["event"]),
@@ -48,10 +50,16 @@ def run(tier):
     n_eval = len(events)
     # (a) signature family
     spath = os.path.join(wd, "sig.ndjson")
-    p = vp.run([drvs["sig_driver"], spath, str(vp.seed())], timeout=600)
-    if p.returncode != 0:
-        raise vp.Broken("sig_driver rc=%d %s" % (p.returncode, p.stderr[-300:]))
-    sev = vp.read_ndjson(spath)
+    sev = []
+    for abi in ("wasm32", "lp16", "lp64u"):
+        apath = os.path.join(wd, "sig_%s.ndjson" % abi)
+        p = vp.run([drvs["sig_driver" + ("" if abi == "wasm32" else "_" + abi)], apath, str(vp.seed())], timeout=600)
+        if p.returncode != 0:
+            raise vp.Broken("sig_driver(%s) rc=%d %s" % (abi, p.returncode, p.stderr[-300:]))
+        for e in vp.read_ndjson(apath):
+            e["abi"] = abi
+            sev.append(e)
+    vp.write_ndjson(spath, sev)
     r = vp.tlc(os.path.join(vp.SPEC, "Trace_Invoke.tla"), os.path.join(vp.SPEC, "Trace_Invoke.cfg"), workers=1,
                timeout=600, env={"TRACE": spath})
     res = r.printed("RESULT")
@@ -85,12 +93,12 @@ def run(tier):
         for b in bad:
             chk.violation("[%s] event %d outside the C11/C12 dispatch Contract: %s" % (b["variant"], b["index"], b["event"]),
                           {"variant": b["variant"], "event": b["event"], "context": b["context"]})
-    sig_classes = set((e["sig"], e["form"], e["out"]) for e in sev if e["e"] == "call")
+    sig_classes = set((e["abi"], e["sig"], e["form"], e["out"]) for e in sev if e["e"] == "call")
     chk.count(evaluations=n_eval, distinct=len(edges) + len(sig_classes) + len(t_vm) + len(t_nat),
               traces=ntrees + 1 + sum(1 for e in events if e["e"] == "reset"))
     chk.cov["exhaustive"] = True
     chk.cov["exhaustive_scope"] = "every edge of the bounded lookup model (2 instances x 2 libraries x incarnations); " \
-                                  "signature family of 18 signatures x one-at-a-time boundary values x 3 wrapper forms; all " \
+                                  "signature family of 18 signatures x one-at-a-time boundary values x 3 wrapper forms x 3 guest ABIs; all " \
                                   "call trees within bounds on instances of different libraries (vm, dylib)"
     chk.assumptions += ["flag-abort build for the signature family: 'aborts before the call' is observed in the exception-"
                         "mode tree runs (poisoned argument: guest body must not start)",
